@@ -31,7 +31,7 @@ CONSTANTS
   MaxReq = {maxreq}
   Hostile = {hostile}
 INVARIANTS TypeOK ServingAtMostMax PermitConservation RepliesInOrder RepliedImpliesApplied NoTornReply StoreIsAppliedCommands ErrorIsLocal
-PROPERTY ShutdownTerminates
+PROPERTY ShutdownTerminates PermitsRefinement
 CHECK_DEADLOCK FALSE
 """
 TRACE_CFG = """SPECIFICATION Spec
@@ -59,6 +59,43 @@ def model_check(v, prop, tier):
     v.add_tlc(f"Server.tla {inst['conns']} MaxConn={inst['maxconn']} MaxReq={inst['maxreq']} (safety + ShutdownTerminates)", r)
     if not r.ok:
         raise ToolError(f"Server.tla violates {r.violated or r.eval_error}\n{r.out[-2500:]}")
+    if prop == "C15":
+        permits_induction(v, tier)
+
+
+def apalache(args, timeout=1500):
+    """Run apalache-mc check on a module of spec/; returns (ok, violated, wall, tail)."""
+    rd = os.path.join(OUT, "apalache", f"{os.getpid()}-{int(time.time() * 1000) % 10**8}")
+    os.makedirs(rd, exist_ok=True)
+    t0 = time.time()
+    p = run(["timeout", str(timeout), "apalache-mc", "check", f"--out-dir={rd}", f"--run-dir={rd}/run"] + args, cwd=SPEC, timeout=timeout + 30)
+    shutil.rmtree(rd, ignore_errors=True)
+    if p.returncode == 124:
+        raise ToolError(f"apalache timed out: {args}")
+    ok = "The outcome is: NoError" in p.stdout
+    violated = "The outcome is: Error" in p.stdout and "invariant" in p.stdout and "violated" in p.stdout
+    if not ok and not violated:
+        raise ToolError(f"apalache failed: {args}\n{p.stdout[-2500:]}")
+    return ok, violated, time.time() - t0, p.stdout[-600:]
+
+
+def permits_induction(v, tier):
+    """C15 beyond the bounded instances: the slot accounting of ServerPermits.tla (which Server.tla refines: PROPERTY
+    PermitsRefinement above) has an INDUCTIVE invariant.  Apalache checks Init => IndInv, IndInv /\\ [Next]_vars =>
+    IndInv' (symbolically, for every state satisfying IndInv - histories of any length) and IndInv => Safety, for
+    every limit 1..|Conns|; with a listener that returns its permit when accept fails the step must fail."""
+    ci = "ConstInit4" if tier == "quick" else "ConstInit6"
+    runs = []
+    for label, args, expect_ok in (
+            ("Init => IndInv", [f"--cinit={ci}", "--init=Init", "--inv=IndInv", "--length=0"], True),
+            ("IndInv /\\ [Next]_vars => IndInv'", [f"--cinit={ci}", "--init=IndInit", "--inv=IndInv", "--length=1"], True),
+            ("IndInv => ServingAtMostMax /\\ NoLeakWhileRunning", [f"--cinit={ci}", "--init=IndInit", "--inv=Safety", "--length=0"], True),
+            ("vacuity guard: with AcceptFailsReturnsPermit the induction step fails", [f"--cinit={ci}", "--init=IndInit", "--next=NextBroken", "--inv=IndInv", "--length=1"], False)):
+        ok, violated, wall, tail = apalache(args + ["ServerPermits.tla"])
+        runs.append({"obligation": label, "outcome": "NoError" if ok else "invariant violated", "wall_s": round(wall, 1)})
+        if ok != expect_ok:
+            raise ToolError(f"ServerPermits.tla: '{label}' gave {'NoError' if ok else 'a violation'}\n{tail}")
+    v.cov["apalache_inductive_invariant"] = {"module": "ServerPermits.tla", "constants": ci + " (MaxConn in 1..|Conns|)", "obligations": runs}
 
 
 def sym_bytes(rnd):
@@ -163,6 +200,16 @@ def inputs_for(v, prop, tier, tag):
         }
         for t, s in directed.items():
             items.append({"tag": t, "stream": B(s)})
+        # long command names / keys with multi-byte characters (and bytes that are no UTF-8) at every offset: whatever
+        # the server does with rejected input (error texts, logging, previews) happens at a byte offset somewhere
+        wide = "é✓😀".encode()
+        for p in range(1, 72):
+            name = b"x" * p + wide + b"xxxx"
+            items.append({"tag": f"long-verb-utf8-{p}", "stream": B(cmdb(name, b"victim", b"x") if p % 3 else cmdb(name))})
+            if p % 2:
+                items.append({"tag": f"long-verb-bin-{p}", "stream": B(cmdb(b"y" * p + b"\xff\xfe\xf0\x9f", b"victim"))})
+            if p % 4 == 1:
+                items.append({"tag": f"long-key-utf8-{p}", "stream": B(cmdb(b"GET", b"k" * p + wide, b"extra"))})
         for k, c in ((129, True), (1000, True), (100000, True), (200000, False), (1000000, True)):
             items.append({"tag": f"nest-{k}", "nest": k, "complete": c})
         items.append({"tag": "rst-before-accept", "special": "rst-backlog", "stream": []})
@@ -222,6 +269,8 @@ def synth_abort(note, evs, how):
         ev.setdefault("stream", [])
         ev.setdefault("len", 0)
         ev.setdefault("tag", "?")
+    elif kind == "kvbig":
+        ev.update({"requests": 6, "exact": 0, "received": 0, "expected": -1, "ending": "abort", "store_ok": False})
     elif kind == "limit":
         ev.update({"steps": [], "hooks": []})
     elif kind == "shutdown":
